@@ -127,23 +127,23 @@ static Solver* make_solver(Bnd& d, Pre& p)
    return s;
 }
 // post-condition shared by all entries: LP bounds are `want`, every status is valid for them, nobody changed sides of the basis
-static void check_all(Solver* s, const Bnd& want, const Pre& p, int id)
+static void check_all(Solver* s, const Bnd& want, const Pre& p)
 {
    for(int j = 0; j < VNC; ++j)
    {
       int st = s->Basis::thedesc.colStatus(j);
-      vp_assert(s->lower(j) == want.lo[j] && s->upper(j) == want.up[j], id);
-      vp_assert(valid_status(st, want.lo[j], want.up[j]), id + 1);           // C04
-      vp_assert((st < 0) == (p.cs[j] < 0), id + 2);                          // primal stays primal, dual stays dual
+      vp_assert(s->lower(j) == want.lo[j] && s->upper(j) == want.up[j], 1);
+      vp_assert(valid_status(st, want.lo[j], want.up[j]), 2);           // C04
+      vp_assert((st < 0) == (p.cs[j] < 0), 3);                          // primal stays primal, dual stays dual
    }
    for(int i = 0; i < VNR; ++i)
    {
       int st = s->Basis::thedesc.rowStatus(i);
-      vp_assert(s->lhs(i) == want.lhs[i] && s->rhs(i) == want.rhs[i], id + 3);
-      vp_assert(valid_status(st, want.lhs[i], want.rhs[i]), id + 4);
-      vp_assert((st < 0) == (p.rs[i] < 0), id + 5);
+      vp_assert(s->lhs(i) == want.lhs[i] && s->rhs(i) == want.rhs[i], 4);
+      vp_assert(valid_status(st, want.lhs[i], want.rhs[i]), 5);
+      vp_assert((st < 0) == (p.rs[i] < 0), 6);
    }
-   vp_assert(s->Basis::thestatus == p.bstat && s->theRep == p.rep, id + 6);
+   vp_assert(s->Basis::thestatus == p.bstat && s->theRep == p.rep, 7);
 }
 
 // ---- the four helpers: the LP already holds the new bound (that is when the entry points call them), the descriptor still
@@ -157,7 +157,7 @@ extern "C" void h_c04_chg_lower_status()
    double old = d.lo[j];
    s->lower_w(j) = nl; d.lo[j] = nl;
    s->changeLowerStatus(j, nl, old);
-   check_all(s, d, p, 1);
+   check_all(s, d, p);
    for(int k = 0; k < VNC; ++k) if(k != j) vp_assert(s->Basis::thedesc.colStatus(k) == p.cs[k], 10);
    for(int k = 0; k < VNR; ++k) vp_assert(s->Basis::thedesc.rowStatus(k) == p.rs[k], 11);
    vp_cover(1);
@@ -171,7 +171,7 @@ extern "C" void h_c04_chg_upper_status()
    double old = d.up[j];
    s->upper_w(j) = nu; d.up[j] = nu;
    s->changeUpperStatus(j, nu, old);
-   check_all(s, d, p, 1);
+   check_all(s, d, p);
    for(int k = 0; k < VNC; ++k) if(k != j) vp_assert(s->Basis::thedesc.colStatus(k) == p.cs[k], 10);
    for(int k = 0; k < VNR; ++k) vp_assert(s->Basis::thedesc.rowStatus(k) == p.rs[k], 11);
    vp_cover(1);
@@ -185,7 +185,7 @@ extern "C" void h_c04_chg_lhs_status()
    double old = d.lhs[i];
    s->lhs_w(i) = nl; d.lhs[i] = nl;
    s->changeLhsStatus(i, nl, old);
-   check_all(s, d, p, 1);
+   check_all(s, d, p);
    for(int k = 0; k < VNC; ++k) vp_assert(s->Basis::thedesc.colStatus(k) == p.cs[k], 10);
    for(int k = 0; k < VNR; ++k) if(k != i) vp_assert(s->Basis::thedesc.rowStatus(k) == p.rs[k], 11);
    vp_cover(1);
@@ -199,7 +199,7 @@ extern "C" void h_c04_chg_rhs_status()
    double old = d.rhs[i];
    s->rhs_w(i) = nu; d.rhs[i] = nu;
    s->changeRhsStatus(i, nu, old);
-   check_all(s, d, p, 1);
+   check_all(s, d, p);
    for(int k = 0; k < VNC; ++k) vp_assert(s->Basis::thedesc.colStatus(k) == p.cs[k], 10);
    for(int k = 0; k < VNR; ++k) if(k != i) vp_assert(s->Basis::thedesc.rowStatus(k) == p.rs[k], 11);
    vp_cover(1);
@@ -217,7 +217,7 @@ extern "C" void h_c04_chg_col_entry()
    if(which == 0) { vp_assume(nl <= d.up[j]); d.lo[j] = nl; s->changeLower(j, nl, false); }
    else if(which == 1) { vp_assume(d.lo[j] <= nu); d.up[j] = nu; s->changeUpper(j, nu, false); }
    else { vp_assume(nl <= nu); d.lo[j] = nl; d.up[j] = nu; s->changeBounds(j, nl, nu, false); }
-   check_all(s, d, p, 1);
+   check_all(s, d, p);
    vp_cover(1);
 }
 // which: 0 changeLhs 1 changeRhs 2 changeRange
@@ -231,6 +231,6 @@ extern "C" void h_c04_chg_row_entry()
    if(which == 0) { vp_assume(nl <= d.rhs[i]); d.lhs[i] = nl; s->changeLhs(i, nl, false); }
    else if(which == 1) { vp_assume(d.lhs[i] <= nu); d.rhs[i] = nu; s->changeRhs(i, nu, false); }
    else { vp_assume(nl <= nu); d.lhs[i] = nl; d.rhs[i] = nu; s->changeRange(i, nl, nu, false); }
-   check_all(s, d, p, 1);
+   check_all(s, d, p);
    vp_cover(1);
 }
